@@ -10,7 +10,7 @@ def pushOps : List SrcOp :=
 
 /-- shared-memory accesses of `Pop` in source order -/
 def popOps : List SrcOp :=
-  [.loadHead, .loadNext, .casHead, .readVal, .writeVal, .addLen (-1)]
+  [.loadHead, .loadTail, .loadNext, .casHead, .readVal, .writeVal, .addLen (-1)]
 
 /-- shared-memory accesses of `Len` in source order -/
 def lenOps : List SrcOp :=
